@@ -3,6 +3,7 @@ import UpfVerif.Spec.Rules
 import UpfVerif.Spec.Arrange
 import UpfVerif.Lemmas.Xlate
 import UpfVerif.Lemmas.Arrange
+import UpfVerif.Model.Perio
 /-
 C03 — QER, URR and BAR reach the kernel exactly as the SMF specified them.
 
@@ -500,6 +501,35 @@ theorem bar_predicate (link seid fl : Nat) (cs : List BarChild) (p : BarSpec) (h
     (hl : link < 2 ^ 32) (hs : seid < 2 ^ 64) :
     readBar (barReq link seid fl cs).attrs = expectBar link seid p :=
   (bar_exact link seid fl cs p (specBar_arranges cs p h) wf hl hs).2
+
+/-! ### the registration of a periodic URR stays what its Create URR made it
+
+`Gtp5g.CreateURR` registers the URR with the periodic server (ADD event) before it hands the rule to the kernel.  When the
+same Create URR arrives again while the rule is live, the kernel refuses it (EEXIST) and the ADD has been posted a second
+time: the groups — and with them what every later tick queries — are exactly what the first Create URR left.  (The
+differential `again=` step of the drv stream checks that the real driver does nothing else on that path.) -/
+
+theorem addG_idem (gs : List Perio.Group) (s u p : Nat) :
+    Perio.addG (Perio.addG gs s u p) s u p = Perio.addG gs s u p := by
+  induction gs with
+  | nil => simp [Perio.addG]
+  | cons g gs ih =>
+    by_cases hp : g.period = p
+    · by_cases hm : (s, u) ∈ g.mem
+      · simp [Perio.addG, hp, hm]
+      · simp [Perio.addG, hp, hm]
+    · simp [Perio.addG, hp, ih]
+
+/-- a second, refused Create URR of a live periodic URR: the periodic server's state, and the query of every period, are
+    unchanged -/
+theorem create_again_keeps_registration (st : Perio.St) (s u p : Nat) :
+    Perio.step (Perio.step st (.add s u p)) (.add s u p) = Perio.step st (.add s u p) ∧
+    ∀ q, Perio.query (Perio.step (Perio.step st (.add s u p)) (.add s u p)) q = Perio.query (Perio.step st (.add s u p)) q := by
+  have h : Perio.step (Perio.step st (.add s u p)) (.add s u p) = Perio.step st (.add s u p) := by
+    by_cases hc : st.closed
+    · simp [Perio.step, hc]
+    · simp [Perio.step, hc, addG_idem]
+  exact ⟨h, fun q => by rw [h]⟩
 
 end UpfVerif.C03
 
